@@ -137,10 +137,15 @@ Print Assumptions C02_sid_all_empty_refuted.
    of has_field_mask returns the error the code raises, the format says "missing". *)
 Theorem C02_info_short_refuted :
   let rows := [[46; 10]] in
-  info_col (List.concat rows) (item_table 0 rows) ([65; 67], IInteger, false) = ColErr
+  all_ignored (List.concat rows) [65; 67] (item_table 0 rows) = true   (* the pinned has_field_mask then raised IndexError *)
   /\ spec_info_cell ([65; 67], IInteger, false) [46] = Some (CInt 0).
 Proof. exact info_short_refuted. Qed.
 Print Assumptions C02_info_short_refuted.
+(* with the repair committed in /repo (fix: INFO key lookup no longer raises IndexError ...) the model returns "missing" *)
+Example C02_info_short_fixed :
+  let rows := [[46; 10]] in
+  info_col (List.concat rows) (item_table 0 rows) ([65; 67], IInteger, false) = Col [CInt 0].
+Proof. vm_compute. reflexivity. Qed.
 
 (* ---------- non-vacuity ---------- *)
 (* a CRLF table with an empty field, a 1-byte field and a 9-byte field in one column meets the hypotheses of T1,
